@@ -294,7 +294,11 @@ def impl_main(payload):
             x[rng.randrange(M), rng.randrange(D)] = 0.0
         g = AGraph()
         g.command_array = np.array(base, dtype=int)
-        L = g.get_number_local_optimization_params()
+        try:
+            L = g.get_number_local_optimization_params()
+        except Exception as e:  # noqa
+            orc["viol"].append("querying the constant count of the well-formed stack %r raised %r" % (base, e))
+            continue
         cs = rs.uniform(-2, 2, size=L)
         g.set_local_optimization_params(cs)
         try:
